@@ -122,7 +122,7 @@ def run_history(case, level=0, steps=None, record=True):
             if o:
                 bad = True
                 if rec['status'] == 'error':
-                    fail('error-left-inconsistent.' + classify(o), f'{rec.get("msg")}; {n}: {o}', k, st)
+                    fail('error-left-inconsistent', f'{rec.get("msg")}; {n}: {o}', k, st)
                 elif n in touched:
                     fail('insane.' + classify(o), f'{n}: {o}', k, st)
                 else:
@@ -132,7 +132,7 @@ def run_history(case, level=0, steps=None, record=True):
                 if n in before and (n not in touched or rec['status'] == 'error'):
                     if struct_of(dump_arr(t, io)) != before[n]:
                         bad = True
-                        fail('error-left-inconsistent.frame' if rec['status'] == 'error' else 'frame',
+                        fail('error-left-inconsistent' if rec['status'] == 'error' else 'frame',
                              f'{n} changed although it is not modified by this call', k, st)
         if rec['status'] == 'error' and st.get('valid') and not bad:
             fail('raised', f'{rec.get("msg")} although the operands are compatible (checked independently)', k, st)
